@@ -19,7 +19,10 @@ def write_cfg(path, constants, init, next_, invariants=(), view=None, constraint
         if constants:
             fh.write("CONSTANTS\n")
             for k, v in constants.items():
-                fh.write("  %s = %s\n" % (k, v))
+                if isinstance(v, str) and v.startswith("<-"):
+                    fh.write("  %s <- %s\n" % (k, v[2:].strip()))      # substitution by a definition
+                else:
+                    fh.write("  %s = %s\n" % (k, v))
         fh.write("INIT %s\nNEXT %s\n" % (init, next_))
         if view:
             fh.write("VIEW %s\n" % view)
@@ -33,7 +36,7 @@ def write_cfg(path, constants, init, next_, invariants=(), view=None, constraint
 
 def run_traces(ctx, module, constants, traces, init="TInit", next_="TNext",
                invariants=("Accepted",), what="trace validation", timeout=1800, workers=16,
-               extra_data=None, heap="4g"):
+               extra_data=None, heap="4g", pick="min", dfs=False):
     """Returns (accepted tids, {tid: (l, clause)} rejected).  tids are 1-based."""
     d = tlc.scratch_dir("trace")
     data = {"traces": traces}
@@ -45,7 +48,7 @@ def run_traces(ctx, module, constants, traces, init="TInit", next_="TNext",
     cfg = os.path.join(d, "trace.cfg")
     write_cfg(cfg, constants, init, next_, invariants)
     r = tlc.run(module, cfg, env={"TRACE_FILE": tf}, workers=workers, coverage=False, timeout=timeout,
-                heap=heap)
+                heap=heap, dfs=dfs)
     if r.rc != 0 or r.violated:
         raise tlc.MachineryError("%s: TLC failed rc=%s violated=%s\n%s" %
                                  (what, r.rc, r.violated, "\n".join(r.out.splitlines()[-40:])))
@@ -56,7 +59,7 @@ def run_traces(ctx, module, constants, traces, init="TInit", next_="TNext",
             accepted.add(p[1])
         elif isinstance(p, tuple) and p and p[0] == "REJECT":
             tid = p[1]
-            if tid not in rejected or p[2] < rejected[tid][0]:
+            if tid not in rejected or (p[2] < rejected[tid][0] if pick == "min" else p[2] > rejected[tid][0]):
                 rejected[tid] = (p[2], p[3] if len(p) > 3 else "?") + tuple(p[4:])
     for tid in range(1, len(traces) + 1):
         if tid not in accepted and tid not in rejected:
